@@ -105,6 +105,14 @@ def run (args : List String) : Option String :=
     let n ← parseNat? n
     let a ← parseOpt? parseInt? a; let b ← parseOpt? parseInt? b; let c ← parseInt? c
     pure (fmtList fmtInt (PySliceStep.sel n a b c))
+  | ["params", kw] => do
+    -- `[k=v,…]` → forwarded and remaining keys (sorted), values verbatim
+    let kvs ← (← parseListRaw? kw).mapM (fun (t : String) => match t.splitOn "=" with
+      | [k, v] => some (k, v)
+      | _ => none)
+    let (fwd, rest) := extractOutputGeoboxParams kvs
+    let f := fun (l : List (String × String)) => fmtList id (sortStr (l.map (fun kv => kv.1 ++ "=" ++ kv.2)))
+    pure s!"{f fwd} {f rest}"
   | ["rt", src, nt, nb, cn, ops] => do
     let r ← build src nt nb cn ops "[]"
     pure (fmtRes fmtArr r)
